@@ -58,8 +58,9 @@ func c14B1t6(c *Ctx) {
 		b := ana.NewBuilder(c.P, fn)
 		key := "C14.decode-exits.b1t6." + v.name
 		g := itoa(v.g)
-		loopIn := edgesMatching(b, "bin<<=>(ind<+"+g+">(0), bin<->("+v.lenTerm+", "+g+"))")
-		loopOut := plainEdges(edgesMatching(b, "bin<>>(ind<+"+g+">(0), bin<->("+v.lenTerm+", "+g+"))"))
+		// canonical form (ana/canon.go) of j <= len-g, j+g <= len, len-j >= g, …:  j − len < −(g−1)
+		loopIn := edgesMatching(b, "bin<<>(bin<->(ind<+"+g+">(0), "+v.lenTerm+"), -"+itoa(v.g-1)+")")
+		loopOut := plainEdges(edgesMatching(b, "bin<>=>(bin<->(ind<+"+g+">(0), "+v.lenTerm+"), -"+itoa(v.g-1)+")"))
 		r.Check(len(loopIn) == 1 && len(loopOut) == 1, key+".loop-bound", c.P.Pos(fn.Pos()), "group loop runs for j = 0, %s, … while j <= len-%s (every whole group, nothing beyond)", g, g)
 		grp := "call<*>(" + v.readPat[0] + ", " + v.readPat[1] + ")"
 		okE := plainEdges(edgesMatching(b, "ext#1("+grp+")"))
@@ -177,8 +178,8 @@ func c14B1t6(c *Ctx) {
 // c14Groups folds encodeGroup / decodeGroup into tables.
 func c14Groups(c *Ctx) {
 	r := c.R
-	enc := c.P.Func("pkg/encoding/b1t6", "encodeGroup")
-	dec := c.P.Func("pkg/encoding/b1t6", "decodeGroup")
+	enc := c.helper("pkg/encoding/b1t6", "encodeGroup")
+	dec := c.helper("pkg/encoding/b1t6", "decodeGroup")
 	if enc == nil || dec == nil {
 		r.Undec("C14.group-tables.anchor", "", "group routines not found")
 		return
